@@ -37,86 +37,71 @@ fn key(i: u8) -> KeyCode {
 }
 const STATES: [KeyState; 3] = [KeyState::Down, KeyState::Up, KeyState::SingleShot];
 
-fn obs<L: KeyboardLayout, S: ScancodeSet>(k: &Keyboard<L, S>) -> (u16, bool) {
-    (t::mods_bits(k.get_modifiers()), matches!(k.get_ctrl_handling(), HandleControl::Ignore))
+fn obs<L: KeyboardLayout, S: ScancodeSet>(k: &Keyboard<L, S>) -> String {
+    format!("mods={} ignore={}", t::mods_bits(k.get_modifiers()), matches!(k.get_ctrl_handling(), HandleControl::Ignore))
+}
+
+/// Run the same script on a const-built and on a runtime-built object, each under catch_unwind: equal
+/// transcripts, or a panic on both sides, count as "same" (a panic of the subject is C08's business).
+fn same<T>(mk_c: fn() -> T, mk_t: fn() -> T, f: &dyn Fn(&mut T) -> String) -> bool {
+    let x = std::panic::catch_unwind(std::panic::AssertUnwindSafe(|| {
+        let mut a = mk_c();
+        f(&mut a)
+    }));
+    let y = std::panic::catch_unwind(std::panic::AssertUnwindSafe(|| {
+        let mut b = mk_t();
+        f(&mut b)
+    }));
+    match (x, y) {
+        (Ok(p), Ok(q)) => p == q,
+        (Err(_), Err(_)) => true,
+        _ => false,
+    }
 }
 
 /// every single-step operation on a fresh const-built object vs a fresh runtime-built one
 pub fn cmp_kb<L: KeyboardLayout, S: ScancodeSet>(r: &mut Report, name: &str, mk_c: fn() -> Keyboard<L, S>, mk_t: fn() -> Keyboard<L, S>) {
     r.configs += 1;
-    let mut bad = |r: &mut Report, what: String| {
-        if r.mismatches.len() < 50 {
+    let mut check = |r: &mut Report, what: String, f: &dyn Fn(&mut Keyboard<L, S>) -> String| {
+        r.comparisons += 1;
+        if !same(mk_c, mk_t, f) && r.mismatches.len() < 50 {
             r.mismatches.push(format!("{}: {}", name, what));
         }
     };
-    {
-        let (a, b) = (mk_c(), mk_t());
-        r.comparisons += 1;
-        if obs(&a) != obs(&b) {
-            bad(r, format!("initial modifiers/mode differ: {:?} vs {:?}", obs(&a), obs(&b)));
-        }
-    }
+    check(r, "initial modifiers/mode differ".into(), &|k| obs(k));
     for byte in 0..=255u8 {
-        let (mut a, mut b) = (mk_c(), mk_t());
-        r.comparisons += 1;
-        if a.add_byte(byte) != b.add_byte(byte) {
-            bad(r, format!("add_byte({:#04x}) differs", byte));
-        }
-        // and one more step to observe the state the first left behind
-        if a.add_byte(0x1C) != b.add_byte(0x1C) {
-            bad(r, format!("add_byte({:#04x}) then add_byte(0x1c) differs", byte));
-        }
+        // one more step observes the state the first left behind
+        check(r, format!("add_byte({:#04x}) [then add_byte(0x1c)] differs", byte), &|k| format!("{:?} {:?}", k.add_byte(byte), k.add_byte(0x1C)));
     }
     for w in 0..2048u16 {
-        let (mut a, mut b) = (mk_c(), mk_t());
-        r.comparisons += 1;
-        if a.add_word(w) != b.add_word(w) {
-            bad(r, format!("add_word({:#05x}) differs", w));
-        }
+        check(r, format!("add_word({:#05x}) differs", w), &|k| format!("{:?}", k.add_word(w)));
     }
     for bit in [false, true] {
-        let (mut a, mut b) = (mk_c(), mk_t());
-        r.comparisons += 1;
-        // shift in a whole frame starting with this bit
-        let mut x = a.add_bit(bit);
-        let mut y = b.add_bit(bit);
-        for i in 0..10 {
-            if x != y {
-                bad(r, format!("add_bit sequence starting with {} differs", bit));
-                break;
+        check(r, format!("add_bit sequence starting with {} differs", bit), &|k| {
+            let mut out = format!("{:?}", k.add_bit(bit));
+            for i in 0..10 {
+                out.push_str(&format!("{:?}", k.add_bit(i % 2 == 0 || i == 9)));
             }
-            x = a.add_bit(i % 2 == 0 || i == 9);
-            y = b.add_bit(i % 2 == 0 || i == 9);
-        }
-        a.clear();
-        b.clear();
+            k.clear();
+            out
+        });
     }
     for ki in 0..KEYS {
         for st in STATES {
-            let (mut a, mut b) = (mk_c(), mk_t());
-            r.comparisons += 1;
-            let ev = KeyEvent::new(key(ki), st);
-            if a.process_keyevent(ev.clone()) != b.process_keyevent(ev) {
-                bad(r, format!("process_keyevent({:?} {:?}) differs", key(ki), st));
-            }
-            if obs(&a) != obs(&b) {
-                bad(r, format!("modifiers after process_keyevent({:?} {:?}) differ", key(ki), st));
-            }
-            // a following ordinary key shows what the layout is given
-            let ev2 = KeyEvent::new(KeyCode::Q, KeyState::Down);
-            if a.process_keyevent(ev2.clone()) != b.process_keyevent(ev2) {
-                bad(r, format!("process_keyevent({:?} {:?}) then Q Down differs", key(ki), st));
-            }
+            check(r, format!("process_keyevent({:?} {:?}) [then Q Down] differs", key(ki), st), &|k| {
+                let a = k.process_keyevent(KeyEvent::new(key(ki), st));
+                let o = obs(k);
+                // a following ordinary key shows what the layout is given
+                let b = k.process_keyevent(KeyEvent::new(KeyCode::Q, KeyState::Down));
+                format!("{:?} {} {:?}", a, o, b)
+            });
         }
     }
     for mode in [HandleControl::Ignore, HandleControl::MapLettersToUnicode] {
-        let (mut a, mut b) = (mk_c(), mk_t());
-        r.comparisons += 1;
-        a.set_ctrl_handling(mode);
-        b.set_ctrl_handling(mode);
-        if obs(&a) != obs(&b) {
-            bad(r, "set_ctrl_handling differs".to_string());
-        }
+        check(r, "set_ctrl_handling differs".to_string(), &|k| {
+            k.set_ctrl_handling(mode);
+            obs(k)
+        });
     }
 }
 
@@ -124,16 +109,14 @@ pub fn cmp_ed<L: KeyboardLayout>(r: &mut Report, name: &str, mk_c: fn() -> Event
     r.configs += 1;
     for ki in 0..KEYS {
         for st in STATES {
-            let (mut a, mut b) = (mk_c(), mk_t());
             r.comparisons += 1;
-            let ev = KeyEvent::new(key(ki), st);
-            let x = a.process_keyevent(ev.clone());
-            let y = b.process_keyevent(ev);
-            let ev2 = KeyEvent::new(KeyCode::Numpad7, KeyState::Down);
-            if x != y || a.process_keyevent(ev2.clone()) != b.process_keyevent(ev2) || matches!(a.get_ctrl_handling(), HandleControl::Ignore) != matches!(b.get_ctrl_handling(), HandleControl::Ignore) {
-                if r.mismatches.len() < 50 {
-                    r.mismatches.push(format!("{}: process_keyevent({:?} {:?}) differs", name, key(ki), st));
-                }
+            let f = |d: &mut EventDecoder<L>| {
+                let x = d.process_keyevent(KeyEvent::new(key(ki), st));
+                let y = d.process_keyevent(KeyEvent::new(KeyCode::Numpad7, KeyState::Down));
+                format!("{:?} {:?} {}", x, y, matches!(d.get_ctrl_handling(), HandleControl::Ignore))
+            };
+            if !same(mk_c, mk_t, &f) && r.mismatches.len() < 50 {
+                r.mismatches.push(format!("{}: process_keyevent({:?} {:?}) differs", name, key(ki), st));
             }
         }
     }
@@ -141,59 +124,65 @@ pub fn cmp_ed<L: KeyboardLayout>(r: &mut Report, name: &str, mk_c: fn() -> Event
 
 pub fn cmp_stages(r: &mut Report) {
     r.configs += 3;
+    let mut bad = |r: &mut Report, s: String| {
+        if r.mismatches.len() < 50 {
+            r.mismatches.push(s);
+        }
+    };
     for w in 0..=u16::MAX {
         r.comparisons += 1;
-        if c::c_ps2().add_word(w) != t::t_ps2().add_word(w) || c::S_PS2.add_word(w) != t::t_ps2().add_word(w) {
-            r.mismatches.push(format!("Ps2Decoder::add_word({:#06x}) differs", w));
+        if !same(c::c_ps2, t::t_ps2, &|d| format!("{:?}", d.add_word(w))) || !same(c::c_ps2, t::t_ps2, &|d| format!("{:?} {:?}", d.add_word(w), c::S_PS2.add_word(w))) {
+            bad(r, format!("Ps2Decoder::add_word({:#06x}) differs", w));
         }
     }
     for first in 0..2048u16 {
-        let (mut a, mut b) = (c::c_ps2(), t::t_ps2());
         r.comparisons += 1;
-        for i in 0..11 {
-            if a.add_bit((first >> i) & 1 != 0) != b.add_bit((first >> i) & 1 != 0) {
-                r.mismatches.push(format!("Ps2Decoder bit-serial frame {:#05x} differs", first));
-                break;
+        if !same(c::c_ps2, t::t_ps2, &|d| {
+            let mut out = String::new();
+            for i in 0..11 {
+                out.push_str(&format!("{:?}", d.add_bit((first >> i) & 1 != 0)));
             }
+            out
+        }) {
+            bad(r, format!("Ps2Decoder bit-serial frame {:#05x} differs", first));
         }
     }
     for b1 in 0..=255u8 {
         for b2 in [0x1Cu8, 0xF0, 0x9C] {
             r.comparisons += 2;
-            let (mut a, mut b) = (c::c_set1(), t::t_set1());
-            if a.advance_state(b1) != b.advance_state(b1) || a.advance_state(b2) != b.advance_state(b2) {
-                r.mismatches.push(format!("ScancodeSet1 {:#04x} {:#04x} differs", b1, b2));
+            if !same(c::c_set1, t::t_set1, &|d| format!("{:?} {:?}", d.advance_state(b1), d.advance_state(b2))) {
+                bad(r, format!("ScancodeSet1 {:#04x} {:#04x} differs", b1, b2));
             }
-            let (mut a, mut b) = (c::c_set2(), t::t_set2());
-            if a.advance_state(b1) != b.advance_state(b1) || a.advance_state(b2) != b.advance_state(b2) {
-                r.mismatches.push(format!("ScancodeSet2 {:#04x} {:#04x} differs", b1, b2));
+            if !same(c::c_set2, t::t_set2, &|d| format!("{:?} {:?}", d.advance_state(b1), d.advance_state(b2))) {
+                bad(r, format!("ScancodeSet2 {:#04x} {:#04x} differs", b1, b2));
             }
         }
     }
     // const-evaluated accessors and the predicate table
     r.comparisons += 7;
     if c::C_PRED_TABLE != t::pred_table() || c::S_PRED_TABLE != t::pred_table() {
-        r.mismatches.push("const-evaluated predicate table differs from the runtime one".into());
+        bad(r, "const-evaluated predicate table differs from the runtime one".into());
     }
     if !c::C_INIT_NUMLOCK || c::C_INIT_MODS_BITS != t::mods_bits(t::t_any_azerty_scancodeset1_ign().get_modifiers()) {
-        r.mismatches.push("const-evaluated get_modifiers() differs from runtime".into());
+        bad(r, "const-evaluated get_modifiers() differs from runtime".into());
     }
     if !(c::C_MODE_IS_MAP && c::C_MODE_IS_IGN && c::C_ED_MODE_IS_IGN && c::C_ED_MODE_IS_MAP) {
-        r.mismatches.push("const-evaluated get_ctrl_handling() differs from the constructor argument".into());
+        bad(r, "const-evaluated get_ctrl_handling() differs from the constructor argument".into());
     }
     if c::c_event() != t::t_event() || c::S_EVENT != KeyEvent::new(KeyCode::PauseBreak, KeyState::SingleShot) {
-        r.mismatches.push("const-built KeyEvent differs".into());
+        bad(r, "const-built KeyEvent differs".into());
     }
     // the statics are usable through shared references from another thread (Send + Sync in action)
-    let h = std::thread::spawn(|| (c::S_US104KEY_SCANCODESET2_MAP.get_modifiers().numlock, c::S_PS2.add_word(0x0402)));
+    let h = std::thread::spawn(|| (c::S_US104KEY_SCANCODESET2_MAP.get_modifiers().numlock, std::panic::catch_unwind(|| c::S_PS2.add_word(0x0402)).ok()));
     let (nl, w) = h.join().unwrap();
     r.comparisons += 1;
-    if !nl || w != Ok(0x01) {
-        r.mismatches.push("static Keyboard / Ps2Decoder read from another thread gives wrong values".into());
+    if !nl || (w.is_some() && w != Some(t::t_ps2().add_word(0x0402))) {
+        bad(r, "static Keyboard / Ps2Decoder read from another thread gives wrong values".into());
     }
 }
 
 fn main() {
+    std::panic::set_hook(Box::new(|_| {}));
     let mut r = Report { comparisons: 0, configs: 0, mismatches: vec![] };
     run_all(&mut r);
     println!("CONFIGS {}", r.configs);
